@@ -117,7 +117,9 @@ type decodingReader struct {
 	dec *gobDecoder
 	// peek is the buffered reader underlying dec; it is used to tell a
 	// graceful end of stream (no more bytes) from a truncated batch.
-	peek    *bufio.Reader
+	peek *bufio.Reader
+	// count counts the bytes gob has consumed from the stream.
+	count   *countingReader
 	crc     hash.Hash32
 	scratch frame.Frame
 	buf     frame.Frame
@@ -138,8 +140,25 @@ func NewDecodingReader(r io.Reader) Reader {
 	// and take over the responsibility of ensuring that IO is buffered.
 	crc := crc32.NewIEEE()
 	peek := bufio.NewReader(r)
-	r = io.TeeReader(peek, crc)
-	return &decodingReader{dec: newGobDecoder(readerByteReader{Reader: r}), peek: peek, crc: crc}
+	count := &countingReader{Reader: io.TeeReader(peek, crc)}
+	return &decodingReader{dec: newGobDecoder(readerByteReader{Reader: count}), peek: peek, count: count, crc: crc}
+}
+
+// maxChecksumMessageLen is the largest number of bytes that the gob
+// message holding a batch's checksum (a uint32) can occupy: a length
+// prefix, the type id, a delimiter, and up to five bytes of value.
+const maxChecksumMessageLen = 8
+
+// countingReader counts the bytes read through it.
+type countingReader struct {
+	io.Reader
+	n int64
+}
+
+func (c *countingReader) Read(p []byte) (n int, err error) {
+	n, err = c.Reader.Read(p)
+	c.n += int64(n)
+	return n, err
 }
 
 // unexpectedEOF maps io.EOF, which gob also returns for short or
@@ -243,8 +262,16 @@ func (d *decodingReader) decode(f frame.Frame) error {
 	}
 	sum := d.crc.Sum32()
 	var decoded uint32
+	start := d.count.n
 	if err := d.dec.Decode(&decoded); err != nil {
 		return unexpectedEOF(err)
+	}
+	// The checksum does not cover its own message. Gob discards
+	// whatever follows the value inside a message, so a damaged
+	// (longer) length prefix would make it silently take the batches
+	// that follow as part of the checksum message.
+	if n := d.count.n - start; n > maxChecksumMessageLen {
+		return errors.E(errors.Integrity, fmt.Errorf("checksum message of %d bytes", n))
 	}
 	if sum != decoded {
 		return errors.E(errors.Integrity, fmt.Errorf("computed checksum %x but expected checksum %x", sum, decoded))
